@@ -89,7 +89,7 @@ class _Worker:
 
 
 class Runtime:
-    BATON_TIMEOUT = 60.0
+    BATON_TIMEOUT = 600.0   # real seconds; generous because one step can take long on an overloaded machine
 
     def __init__(self):
         self.seq = itertools.count()
